@@ -109,7 +109,7 @@ pub fn child(args: &Args) {
             journal.sync_all().unwrap();
         };
         let topic = topic_of(&plan.topic);
-        let node = p2panda::Node::builder()
+        let node = p2panda::Node::builder().mdns_mode(p2panda::network::MdnsDiscoveryMode::Disabled)
             .signing_key(key_of(&plan.key))
             .database_url(&format!("sqlite://{db}?mode=rwc"))
             .ack_policy(if plan.explicit { AckPolicy::Explicit } else { AckPolicy::Automatic })
@@ -270,7 +270,7 @@ pub fn replay_child(args: &Args) {
         .try_init();
     let rt = tokio::runtime::Builder::new_multi_thread().worker_threads(2).enable_all().build().unwrap();
     rt.block_on(async move {
-        let node = p2panda::Node::builder()
+        let node = p2panda::Node::builder().mdns_mode(p2panda::network::MdnsDiscoveryMode::Disabled)
             .signing_key(key)
             .database_url(&format!("sqlite://{db}?mode=rwc"))
             .ack_policy(AckPolicy::Explicit)
